@@ -52,3 +52,30 @@ Lemma pinned_grow_insufficient_proof :
   exists MAX len top n l, 0 <= top /\ top + 2 <= len /\ len <= MAX /\ 0 <= n /\
     pinned_ensure_stack MAX len top n = Some l /\ l <= top + n.
 Proof. exists 8192000, 16384, 10000, 40064, 40064. repeat split; try lia; reflexivity. Qed.
+
+(** round 4 — sexp_restore_stack (RESUMECC), regenerated as [gen_restore_stack]: a continuation whose saved vector has [n]
+    words is restored onto a stack of [slen] words (a FRESH context's stack can be much shorter than the one the continuation
+    was captured on: sexp_eval_op gives every sexp_eval_string call its own).  Either out-of-stack is reported and the saved
+    frames really do not fit below MAX with their margin, or the stack the words are copied to (the one read from the context
+    AFTER the growth — the translator rejects any other order) has room for all [n] words AND the 64-word margin above the new
+    top that every later push without its own sexp_ensure_stack relies on ([call_margin]); it never shrinks. *)
+Lemma restore_policy_proof : forall MAX slen n,
+  0 <= n -> 0 < slen -> slen <= MAX ->
+  match gen_restore_stack MAX slen n with
+  | Some l => gen_restore_copy n + 64 <= l /\ l <= MAX /\ slen <= l
+  | None => MAX <= n + 64
+  end.
+Proof.
+  intros MAX slen n Hn Hs Hm.
+  unfold gen_restore_stack, gen_grow_stack, gen_restore_copy. cbv zeta.
+  split_tests; lia.
+Qed.
+
+Example restore_policy_stays : gen_restore_stack 1024000 4096 1158 = Some 4096.
+Proof. reflexivity. Qed.
+Example restore_policy_doubles : gen_restore_stack 1024000 1024 960 = Some 2048.
+Proof. reflexivity. Qed.
+Example restore_policy_exact_fit : gen_restore_stack 1024000 1024 30000 = Some 30064.
+Proof. reflexivity. Qed.
+Example restore_policy_oos : gen_restore_stack 1024000 1024 1023990 = None.
+Proof. reflexivity. Qed.
